@@ -30,15 +30,17 @@ func (t *T) ToRemoveSuffixString() string {
 func (t *T) UnifyVariants() *T {
 	unionT := MakeUnion([]T{})
 
+	// the union is built from copies: merging two array variants must not write
+	// into the arrays the receiver holds
 	switch t.tType {
 	case HASH:
 		for _, variantT := range t.variants {
-			unionT.AppendVariant(*variantT.GetKeyValue())
+			unionT.AppendVariant(*variantT.GetKeyValue().DeepCopy())
 		}
 
 	default:
 		for _, variantT := range t.variants {
-			unionT.AppendVariant(variantT)
+			unionT.AppendVariant(*variantT.DeepCopy())
 		}
 	}
 
